@@ -47,7 +47,7 @@ Inductive op :=
 | ODescribeTable (table : str)
 | OUpdateTable (table : str) (defs : list (str * str)) (create : option index_def) (delete : option str)
 | OClearTable (table : str)
-| OPut (table : str) (it : item) (cond : option str) (names : fmap str) (vals : item)
+| OPut (table : str) (it : item) (cond : option str) (names : fmap str) (vals : item) (return_old : bool)
 | OGet (table : str) (key : item) (names : fmap str) (proj : str)
 | OUpdate (table : str) (key : item) (expr : str) (cond : option str) (names : fmap str) (vals : item) (all_old : bool)
 | ODelete (table : str) (key : item) (cond : option str) (names : fmap str) (vals : item) (return_old : bool)
@@ -183,14 +183,21 @@ Definition describe (t : tbl) : desc :=
 (* ---------- table management ---------- *)
 
 (* parseKeySchema + validateAttributeDefinition *)
+(* a key attribute is declared S, N or B (fix d92fdf4): the key strings are only defined for these types *)
+Definition key_typed (defs : fmap str) (k : str) : bool :=
+  match lookup k defs with
+  | Some ty => str_eqb ty (bs "S") || str_eqb ty (bs "N") || str_eqb ty (bs "B")
+  | None => false
+  end.
+
 Definition check_schema (defs : fmap str) (h r : option str) : option (str * str) :=
   match h with
   | None | Some [] => None
   | Some hk =>
       if mem hk defs then
         match r with
-        | None | Some [] => Some (hk, [])
-        | Some rk => if mem rk defs then Some (hk, rk) else None
+        | None | Some [] => if key_typed defs hk then Some (hk, []) else None
+        | Some rk => if mem rk defs then (if key_typed defs hk && key_typed defs rk then Some (hk, rk) else None) else None
         end
       else None
   end.
@@ -303,10 +310,11 @@ Definition update_table (c : client) (table : str) (defs : list (str * str)) (cr
 
 Definition preamble (c : client) (table : str) (names : fmap str) (vals : item) (exprs : list str)
   : errclass + tbl :=
-  if negb (v1_name_ok table) then inl InvalidParam
-  else match c_failure c with
+  (* an emulated failure takes precedence over the SDK v1 request validation (fix 1055435) *)
+  match c_failure c with
   | Some f => inl (failure_err f)
   | None =>
+      if negb (v1_name_ok table) then inl InvalidParam else
       if validate_expr_attrs (keys names) (keys vals) exprs then
         match lookup table (c_tables c) with
         | Some t => inr t
@@ -316,12 +324,14 @@ Definition preamble (c : client) (table : str) (names : fmap str) (vals : item) 
   end.
 
 Definition put_item (c : client) (table : str) (it : item) (cond : option str) (names : fmap str) (vals : item)
-  : client * obs :=
+    (return_old : bool) : client * obs :=
   match preamble c table names vals [opt_str cond] with
   | inl e => (c, err_obs e)
   | inr t =>
       match t_put lang_match (ctx_of c) t it cond names vals with
-      | (t', WOk _ f) => (set_table c t', ok_obs PNone f)
+      | (t', WOk old f) =>
+          (* the replaced item, and only with ReturnValues = ALL_OLD (fix e014a0c) *)
+          (set_table c t', ok_obs (match old with Some i => if return_old then PItem (out_item flavour i) else PNone | None => PNone end) f)
       | (_, WCondFailed old f) =>
           (* the harness always asks for ReturnValuesOnConditionCheckFailure = ALL_OLD on PutItem / DeleteItem (fix 1b96490) *)
           (c, {| o_res := RErr CondFailed;
@@ -373,10 +383,9 @@ Definition delete_item (c : client) (table : str) (key : item) (cond : option st
       | (t', WOk old f) =>
           (set_table c t',
            ok_obs (if return_old
-                   then match old, flavour with
-                        | Some i, _ => PItem (out_item flavour i)
-                        | None, V2 => PItem []
-                        | None, V1 => PNone         (* the v1 mapper keeps a nil map nil *)
+                   then match old with
+                        | Some i => PItem (out_item flavour i)
+                        | None => PNone             (* nothing deleted: no Attributes at all (fix 9264382) *)
                         end
                    else PNone) f)
       | (_, WCondFailed old f) =>
@@ -406,12 +415,34 @@ Definition check_expr (e : str) : outcome unit :=
          end
   end.
 
-Definition check_expressions (c : client) (q : query) : outcome unit :=
-  if c_native c then Ok Datatypes.tt else obind (check_expr (q_keycond q)) (fun _ => check_expr (q_filter q)).
+(* with the native interpreter on, only an expression that has a registered matcher is exempt (fix 03e87dc) *)
+Definition check_expressions (c : client) (tname : str) (q : query) : outcome unit :=
+  let exempt (k : ekind) (e : str) : bool :=
+    c_native c && match lookup (reg_key tname e) (reg_matchers (c_reg c) k) with Some _ => true | None => false end in
+  obind (if exempt KKey (q_keycond q) then Ok Datatypes.tt else check_expr (q_keycond q))
+        (fun _ => if exempt KFilter (q_filter q) then Ok Datatypes.tt else check_expr (q_filter q)).
+
+(* Table.ValidateStartKey (fix 9111e82): a start key that lacks a key attribute of the table, or carries a key attribute
+   of the table or of the index that is read with the wrong type, is rejected (it used to be dropped silently) *)
+Definition valid_start_key (t : tbl) (oix : option str) (esk : item) : bool :=
+  match esk with
+  | [] => true
+  | _ => match get_key (t_ks t) (t_defs t) esk with
+         | inl _ => false
+         | inr _ => match oix with
+                    | Some n => match lookup n (t_indexes t) with
+                                | Some ix => match get_key (ix_ks ix) (t_defs t) esk with inl _ => false | inr _ => true end
+                                | None => true
+                                end
+                    | None => true
+                    end
+         end
+  end.
 
 Definition run_search (c : client) (t : tbl) (q : query) : client * obs :=
   let go (q' : query) : client * obs :=
-    match check_expressions c q with
+    if negb (valid_start_key t (q_index q') (q_esk q')) then (c, err_obs Validation) else
+    match check_expressions c (t_name t) q with
     | Err e => (c, err_obs e)
     | Panic p => (c, panic_obs p)
     | OutOfFuel => (c, fuel_obs)
@@ -476,10 +507,13 @@ Definition batch_limit : nat := batch_limit_v2.
 Definition batch_write_one (c : client) (table : str) (r : wreq) : client * option (option obs) :=
   let '(c', o) :=
     match r with
-    | WPut i => put_item c table i None [] []
+    | WPut i => put_item c table i None [] [] false
     | WDelete k => delete_item c table k None [] [] false
-    | WBoth i _ => put_item c table i None [] []
-    | WNeither => (c, ok_obs PNone [])
+    | WBoth i _ => put_item c table i None [] [] false
+    | WNeither =>
+        (* an empty request has nothing to apply; under an emulated failure it fails like every other request of the
+           batch (the failure is looked at before the requests are, fix aae4d34) *)
+        match c_failure c with Some f => (c, err_obs (failure_err f)) | None => (c, ok_obs PNone []) end
     end in
   match o_res o with
   | ROk => (c', None)
@@ -529,8 +563,9 @@ Definition prevalidate_table (c : client) (tr : str * list wreq) : list errclass
 
 Definition batch_write (c : client) (reqs : fmap (list wreq)) : client * obs :=
   let all := flat_map snd reqs in
-  if negb (forallb wreq_ok all) then (c, err_obs Validation)
-  else if Nat.ltb batch_limit (List.length all) then (c, err_obs Validation)
+  (* under an emulated failure the shape of the batch is not looked at (fix 142a901) *)
+  if (match c_failure c with Some _ => false | None => true end) && negb (forallb wreq_ok all) then (c, err_obs Validation)
+  else if (match c_failure c with Some _ => false | None => true end) && Nat.ltb batch_limit (List.length all) then (c, err_obs Validation)
   else match (match c_failure c with Some _ => [] | None => flat_map (prevalidate_table c) reqs end) with
   | e :: es => (c, {| o_res := RErr e; o_pay := PAlt (e :: es); o_fired := [] |})
   | [] =>
@@ -548,10 +583,14 @@ Definition batch_get (c : client) (reqs : fmap (list item)) (opts : fmap (fmap s
       | Some f => (c, err_obs (failure_err f))
       | None =>
           (* the names and the projection of every table entry are validated before any key is read (fix 2aa9a7b) *)
-          if negb (forallb (fun tk : str * list item =>
-                              let '(names, proj) := match lookup (fst tk) opts with Some o => o | None => ([], []) end in
-                              validate_expr_attrs (keys names) [] [proj]) reqs)
-          then (c, err_obs Validation) else
+          (* ... and so is the existence of every table (fix 91e5142); with several offending tables the error that is
+             reported depends on Go's map iteration order *)
+          match flat_map (fun tk : str * list item =>
+                            let '(names, proj) := match lookup (fst tk) opts with Some o => o | None => ([], []) end in
+                            if negb (validate_expr_attrs (keys names) [] [proj]) then [Validation]
+                            else if mem (fst tk) (c_tables c) then [] else [NotFound]) reqs with
+          | e :: es => (c, {| o_res := RErr e; o_pay := PAlt (e :: es); o_fired := [] |})
+          | [] =>
           let per_table (tk : str * list item) :=
             let '(names, proj) := match lookup (fst tk) opts with Some o => o | None => ([], []) end in
             let got := map (fun k => (k, snd (get_item_op c (fst tk) k names proj))) (snd tk) in
@@ -563,6 +602,7 @@ Definition batch_get (c : client) (reqs : fmap (list item)) (opts : fmap (fmap s
           let rs := map per_table reqs in
           (c, ok_obs (PBatchGet (map (fun r => (fst (fst r), snd (fst r))) rs)
                                 (flat_map (fun r => match snd r with [] => [] | m => [(fst (fst r), m)] end) rs)) [])
+          end
       end
   end.
 
@@ -601,7 +641,7 @@ Definition step (c : client) (o : op) : client * obs :=
       | None => (c, err_obs NotFound)
       | Some tb => (set_table c (t_clear tb), ok_obs PNone [])
       end
-  | OPut t i cond names vals => put_item c t i cond names vals
+  | OPut t i cond names vals ro => put_item c t i cond names vals ro
   | OGet t k names proj => get_item_op c t k names proj
   | OUpdate t k e cond names vals ao => update_item c t k e cond names vals ao
   | ODelete t k cond names vals ro => delete_item c t k cond names vals ro
